@@ -532,6 +532,26 @@ func c3Pointers(c *Ctx) {
 		val := fn.Params[1]
 		var nilOK, valOK bool
 		detail := ""
+		// idiom 2: delegation to a shared helper  return helper(key, val, <value constructor>)
+		if rs := Returns(fn); len(rs) == 1 {
+			if call, isCall := Strip(RetVals(rs[0])[0]).(*ssa.Call); isCall && len(call.Call.Args) == 3 {
+				h := call.Call.StaticCallee()
+				var ctor *ssa.Function
+				switch a := call.Call.Args[2].(type) {
+				case *ssa.Function:
+					ctor = a
+				case *ssa.ChangeType:
+					ctor, _ = a.X.(*ssa.Function)
+				}
+				if h != nil && ctor != nil && call.Call.Args[0] == ssa.Value(fn.Params[0]) && call.Call.Args[1] == ssa.Value(val) {
+					csig := ctor.Signature
+					okC := csig.Params().Len() == 2 && types.Identical(csig.Params().At(1).Type(), pt.Elem()) && ctor.Name()+"p" == fo.Name()
+					okH := ptrHelperShape(h)
+					c.Check(okC && okH, "R3.2", name, "nil-or-deref", fn.Pos(), "delegates to %s(key, val, %s): the helper returns nilField(key) exactly under nil and otherwise calls the given value constructor of %s with *val (constructor ok=%v, helper shape ok=%v)", h.Name(), ctor.Name(), TypeName(pt.Elem()), okC, okH)
+					continue
+				}
+			}
+		}
 		for _, r := range Returns(fn) {
 			call, isCall := Strip(RetVals(r)[0]).(*ssa.Call)
 			if !isCall {
@@ -907,18 +927,20 @@ func c3Time(c *Ctx) {
 	nT := 0
 	for _, cl := range Calls(addTo) {
 		if f := CalleeFunc(cl); f != nil && f.Name() == "AddTime" {
-			d := Desc(Args(cl)[2])
-			switch {
-			case d == "In(Unix(0, f.Integer), f.Interface.(*time.Location))":
-				nT++
-				ok := HasAtom(Guards(cl), func(s string) bool { return s == "f.Interface != nil" })
-				c.Check(ok, "R3.5", "zapcore.Field.AddTo", "rebuild-with-location", cl.Pos(), "TimeType is rebuilt as time.Unix(0, n).In(loc) when a location is present")
-			case d == "Unix(0, f.Integer)":
-				nT++
-				c.OK("R3.5", "zapcore.Field.AddTo", "rebuild-without-location", cl.Pos(), "TimeType without location is rebuilt as time.Unix(0, n)")
-			case d == "f.Interface.(time.Time)":
-			default:
-				c.Bad("R3.5", "zapcore.Field.AddTo", "rebuild", cl.Pos(), "unexpected time reconstruction %s", d)
+			for _, alt := range valueAlternatives(Args(cl)[2], cl.Block()) {
+				d := alt.desc
+				conds := append(append([]string{}, alt.conds...), AtomStrings(Guards(cl))...)
+				switch {
+				case d == "In(Unix(0, f.Integer), f.Interface.(*time.Location))":
+					nT++
+					c.Check(containsS(conds, "f.Interface != nil"), "R3.5", "zapcore.Field.AddTo", "rebuild-with-location", cl.Pos(), "TimeType is rebuilt as time.Unix(0, n).In(loc) when a location is present")
+				case d == "Unix(0, f.Integer)":
+					nT++
+					c.OK("R3.5", "zapcore.Field.AddTo", "rebuild-without-location", cl.Pos(), "TimeType without location is rebuilt as time.Unix(0, n)")
+				case d == "f.Interface.(time.Time)":
+				default:
+					c.Bad("R3.5", "zapcore.Field.AddTo", "rebuild", cl.Pos(), "unexpected time reconstruction %s", d)
+				}
 			}
 		}
 	}
@@ -993,6 +1015,33 @@ func c3Equals(c *Ctx, byType map[string][]fieldLit) {
 				} else {
 					for _, k := range a.consts {
 						s[k.Name()] = true
+					}
+				}
+				return s
+			}
+		}
+		if pos > sw.End() {
+			// after the switch: only field types whose arm does not return (or that have no arm) get here
+			allTerminate := true
+			hasDefault := false
+			for _, a := range arms {
+				if a.isDef {
+					hasDefault = true
+				}
+				n := len(a.clause.Body)
+				if n == 0 {
+					allTerminate = false
+					continue
+				}
+				if _, isRet := a.clause.Body[n-1].(*ast.ReturnStmt); !isRet {
+					allTerminate = false
+				}
+			}
+			if allTerminate && !hasDefault {
+				s := map[string]bool{}
+				for n := range all {
+					if !listed[n] {
+						s[n] = true
 					}
 				}
 				return s
@@ -1137,4 +1186,35 @@ func c3Provenance(c *Ctx, cname, slot string, l fieldLit) {
 		_, isParam := v.(*ssa.Parameter)
 		c.Check(isParam, "R3.1", cname, "provenance/"+slot+"/"+st.Field, st.Instr.Pos(), "the %s slot holds the parameter itself (through conversions only); found %s — a phi/arithmetic here means the value is replaced for part of its domain", st.Field, Desc(st.Instr.Val))
 	}
+}
+
+// ptrHelperShape: func(key, val *T, ctor func(string, T) Field) Field that
+// returns nilField(key) exactly under val == nil and ctor(key, *val) otherwise.
+func ptrHelperShape(h *ssa.Function) bool {
+	if o := h.Origin(); o != nil {
+		h = o
+	}
+	if len(h.Params) != 3 || len(h.Blocks) == 0 {
+		return false
+	}
+	key, val, ctor := h.Params[0], h.Params[1], h.Params[2]
+	nilOK, valOK := false, false
+	for _, r := range Returns(h) {
+		call, ok := Strip(RetVals(r)[0]).(*ssa.Call)
+		if !ok {
+			return false
+		}
+		atoms := AtomStrings(GuardsOfBlock(r.Block()))
+		if f := CalleeFunc(call); f != nil && f.Name() == "nilField" {
+			nilOK = len(atoms) == 1 && atoms[0] == val.Name()+" == nil" && call.Call.Args[0] == ssa.Value(key)
+			continue
+		}
+		if call.Call.Value == ssa.Value(ctor) && len(call.Call.Args) == 2 {
+			u, isLoad := call.Call.Args[1].(*ssa.UnOp)
+			valOK = call.Call.Args[0] == ssa.Value(key) && isLoad && u.Op == token.MUL && u.X == ssa.Value(val) && len(atoms) == 1 && atoms[0] == val.Name()+" != nil"
+			continue
+		}
+		return false
+	}
+	return nilOK && valOK
 }
